@@ -515,10 +515,13 @@ func Parse(addr string) (*Address, error) {
 		return nil, errors.New("address format is invalid")
 	}
 
-	host, portStr, ok := strings.Cut(hostPort, ":")
-	if !ok || strings.Contains(portStr, ":") {
+	// the port follows the last colon: String() writes IPv6 hosts without
+	// brackets, so the host itself may contain colons
+	sep := strings.LastIndex(hostPort, ":")
+	if sep < 0 {
 		return nil, errors.New("address format is invalid")
 	}
+	host, portStr := hostPort[:sep], hostPort[sep+1:]
 
 	parsedPort, err := strconvx.ParseInt32(portStr)
 	if err != nil {
